@@ -111,6 +111,9 @@ func (s *Stats) NoteOutcome(o *Outcome) {
 		fmt.Fprintf(h, "%d|%d|%s|%s|%s|%s|%v|%v|%d\n", s.caseHash, o.Hash, o.ErrClass(), o.ErrText, o.Result.Render(), o.Stdout, o.Records, o.BatchPerms, o.SimNs)
 		s.caseHash = h.Sum64()
 	}
+	if o.IdleAdvances > 0 && !o.Hang {
+		s.Probes["clock_advanced_for_a_timer_of_the_code_under_test"]++
+	}
 	for _, st := range o.Streams {
 		if st.DataWithEOF {
 			s.Probes["read_returned_data_and_eof"]++
